@@ -4,13 +4,17 @@ from contracts import negotiation
 ID = "C05"
 T = "paramiko.transport.Transport."
 TARGETS = [T + "_parse_kex_init", T + "_send_kex_init"]
-REPLAY = {"*": "c05.replay_negotiation"}
+REPLAY = {"*": "c05.replay_negotiation", "_filter_algorithm": "c05.filter_follows_configuration"}
 MAX_PATHS = 20000
 
 
 def setup(E):
     negotiation.declare(E)
     negotiation.declare_send(E)
+    global TARGETS
+    TARGETS = [t for t in TARGETS if not (isinstance(t, tuple) and str(t[1]).startswith("filter-"))]
+    for kind in ("kex", "ciphers", "macs", "keys", "compression", "pubkeys"):
+        TARGETS.append(negotiation.filter_variant(E, kind))
 
 
 def lemmas(E):
